@@ -627,7 +627,8 @@ func c05Run(c C05Case) c05Outcome {
 	}
 	if sent.Doc != nil {
 		root := sent.Doc.Root
-		for _, s := range root.ChildrenNamed(world.NSDS, "Signature") {
+		sigs := root.ChildrenNamed(world.NSDS, "Signature")
+		for i, s := range sigs {
 			sv := s.Child(world.NSDS, "SignatureValue")
 			if sv == nil || strings.TrimSpace(sv.Text()) == "" {
 				continue
@@ -637,9 +638,13 @@ func c05Run(c C05Case) c05Outcome {
 				ok = dsigref.VerifyEnveloped(root, s, &regKey.RSA.PublicKey).OK
 			}
 			if !ok {
-				if inURL {
+				switch {
+				case inURL:
 					out.vs = append(out.vs, ev.V("C05/embedded-dsig-ignored-in-redirect-binding", "redirect-binding message with an embedded ds:Signature that does not verify was accepted"))
-				} else {
+				case len(sigs) > 1 && i < len(sigs)-1:
+					// root cause: the struct decoder keeps only the last ds:Signature child; earlier siblings are never looked at
+					out.vs = append(out.vs, ev.V("C05/earlier-duplicate-signature-ignored", "message with %d ds:Signature children accepted although child %d carries a signature value that does not verify (mutations %v)", len(sigs), i, c.mutNames()))
+				default:
 					out.vs = append(out.vs, ev.V("C05/accepted-with-invalid-dsig", "accepted although the enveloped signature does not verify under the registered certificate (mutations %v)", c.mutNames()))
 				}
 			}
